@@ -152,6 +152,11 @@ def check_edit(drv, rng, obj, X, edit, stats):
     # labels / summary / JSON keep agreeing with transform
     fs = c04.check_object(drv, obj, X, " (after an edit)")
     fs += c06.check_roundtrip(drv, rng, obj, X, stats, " (after an edit)")
+    from . import c16
+    fs2 = c16.check_summary(drv, rng, obj, X, stats)      # summary() vs transform (and vs the model) on the edited object
+    for x in fs2:
+        x["what"] += " (after an edit)"
+    fs += fs2
     for x in fs:
         x["edit"] = [f, mode, arg_wire(discarded), arg_wire(kept)]
     return fails + fs, False
